@@ -15,6 +15,20 @@ pub fn run(key: &str, a: &[String]) -> String {
                 .build();
             format!("{}", c.primary_epoch_reward(u(&a[2])).as_u64())
         }
+        "since_extract_metric" => {
+            use ckb_verification::{Since, SinceMetric};
+            match Since(u(&a[0])).extract_metric() {
+                None => "0 0 0".to_string(),
+                Some(SinceMetric::BlockNumber(n)) => format!("1 0 {n}"),
+                Some(SinceMetric::EpochNumberWithFraction(e)) => format!("1 1 {}", e.full_value()),
+                Some(SinceMetric::Timestamp(t)) => format!("1 2 {t}"),
+            }
+        }
+        "since_flags" => {
+            use ckb_verification::Since;
+            let s = Since(u(&a[0]));
+            format!("{} {} {}", s.is_absolute() as u8, s.is_relative() as u8, s.flags_is_valid() as u8)
+        }
         "freezer_k1" => crate::freezer::k1(a),
         "freezer_k5" => crate::freezer::k5(a),
         "freezer_k2" => crate::freezer::k2(a),
